@@ -331,6 +331,8 @@ func runC16(c *Ctx) {
 	}
 
 	// ---- R16.6
+	c.rule("R16.7", "a reverse call made while the connection goes away fails instead of blocking: the hand-over to the connection loop is a rendezvous (unbuffered queue), so no request is left in a buffer that nobody drains")
+	c.unbufferedQueue("R16.7")
 	c.rule("R16.6", "a reverse call fails once the client is gone also when it is retry-tagged: re-sends only on the wire's temporary-connection code")
 	c.retryGateRule("R16.6")
 
